@@ -17,12 +17,12 @@ from harness.common import enc, dec
 PROP = "C02"
 
 
-IMPORTS = ["from harness.c02_filters import f1, f2, f3, f4, wrap"]
+IMPORTS = ["from harness.c02_filters import f1, f2, f3, f4, wrap, wrap2"]
 
 
 def mk_env():
     from harness import c02_filters as m
-    return {"f1": m.f1, "f2": m.f2, "f3": m.f3, "f4": m.f4, "wrap": m.wrap}
+    return {"f1": m.f1, "f2": m.f2, "f3": m.f3, "f4": m.f4, "wrap": m.wrap, "wrap2": m.wrap2}
 
 
 def apply_resolved(names, value, env):
@@ -79,10 +79,10 @@ def run(ctx):
     # ---- 1. exhaustive filter configurations --------------------------------------------------
     Ds = [None, [], ["str"], ["f1"], ["str", "f1"], ["n"], ["h", "f1"]]
     Ps = [None, ["f2"], ["n", "f2"], ["f2", "n"], ["trim", "f2"]]
-    items = ["f3", "f4", "wrap('q')", "h", "trim", "n", "x", "decode.utf8"]
+    items = ["f3", "f4", "wrap('q')", "h", "trim", "n", "x", "decode.utf8", "wrap2('a', 'b')", "wrap('q,r')", "wrap2('k', right='z')"]
     Ls = [[]]
     for n in (1, 2, 3):
-        src_items = items if (n < 3 or tier == "thorough") else ["f3", "wrap('q')", "h", "n", "trim"]
+        src_items = items if (n < 2 or (n < 3 and tier == "thorough")) else (["f3", "wrap('q')", "h", "n", "trim", "wrap2('a', 'b')"] if n < 3 else ["f3", "wrap2('a', 'b')", "h", "n"])
         Ls += [list(c) for c in itertools.product(src_items, repeat=n)]
     values = [" <a&b> ", "plain"]
     req, cases = [], []
